@@ -896,6 +896,31 @@ def _NT(*names):
     return R
 
 @api
+def topk(x, k, dim=-1, largest=True, sorted=True):
+    """selection by symbolic comparisons (each comparison is a path decision)"""
+    x = _T(x); d = _norm_dim(dim, x._a.ndim)
+    mv = np.moveaxis(x._a, d, -1)
+    vals = np.empty(mv.shape[:-1] + (k,), dtype=object); idxs = np.empty(mv.shape[:-1] + (k,), dtype=object)
+    for bi in np.ndindex(mv.shape[:-1]):
+        items = list(enumerate(mv[bi]))
+        if k > len(items): raise RuntimeError("selected index k out of range")
+        chosen = []
+        for r in range(k):
+            best = 0
+            for j in range(1, len(items)):
+                a, b = Frac.of(items[j][1]), Frac.of(items[best][1])
+                if decide((a > b) if largest else (a < b)): best = j
+            chosen.append(items.pop(best))
+        for r, (i, v) in enumerate(chosen):
+            vals[bi + (r,)] = v; idxs[bi + (r,)] = i
+    return _NT('values', 'indices')(_mk(np.moveaxis(vals, -1, d), x._k), _mk(np.moveaxis(idxs, -1, d), 'i'))
+def sort(x, dim=-1, descending=False, stable=False):
+    n = _T(x)._a.shape[dim]
+    return topk(x, n, dim=dim, largest=descending)
+def argsort(x, dim=-1, descending=False, stable=False):
+    return sort(x, dim, descending).indices
+
+@api
 def clamp(x, min=None, max=None):
     def f(a):
         a0 = a
@@ -1301,7 +1326,7 @@ def _bind():
         reciprocal rsqrt gt ge lt le eq ne logical_not logical_and logical_or all any sum mean prod cumsum max min amax amin
         argmax argmin clamp clip unsqueeze squeeze expand expand_as repeat tile reshape view view_as flatten ravel transpose
         swapaxes swapdims permute movedim moveaxis t split chunk unbind select narrow index_select gather take_along_dim flip roll
-        diagonal matmul mm bmm mv dot norm det inverse where isnan isinf isfinite floor ceil round floor_divide remainder
+        diagonal matmul mm bmm mv dot norm det inverse topk sort argsort where isnan isinf isfinite floor ceil round floor_divide remainder
         maximum minimum tril triu atan2 cross outer diag trace expm1 log1p vecdot multiply divide true_divide absolute'''.split()
     for n in names:
         if n in ('to', 'float', 'int', 'bool'): continue
